@@ -14,7 +14,9 @@ from .. import core, realtok
 from ..tok import enc, NONE
 from . import c02
 
-NEXT = ["", ";", "=", "a", "1", " ", "<", "&", "x;", "Z", "\"", "'", ">"]
+NEXT = ["", ";", "=", "a", "1", " ", "<", "&", "x;", "Z", "\"", "'", ">",
+        # alphanumeric for Python (isalnum / isdigit / \w), not for the standard's "ASCII alphanumeric"
+        "é", "中", "²", "٣", "\u212a", "\U0001d7d8"]
 CTX = [("data", "%s", "data"), ("rcdata", "%s", "rcdata"), ("dq", '<a b="%s">', "data"), ("sq", "<a b='%s'>", "data"),
        ("uq", "<a b=%s>", "data")]
 
